@@ -94,6 +94,50 @@ fn crash_cases(out: &mut impl Write, ops: &[Op], dir: &PathBuf, kind: &str) {
     }
 }
 
+/// the real statistics worker thread, fed with the messages of a history; what its HTML page lists
+/// as peer clients afterwards.  `statsw <msgs> <id=client,…> => <client=count;…>`
+fn stats_worker_case(out: &mut impl Write, msgs: &[String], dir: &PathBuf) {
+    use aquatic_udp::common::{State, Statistics, StatisticsMessage};
+    use aquatic_udp_protocol::PeerId;
+    // one page per worker: the worker threads of earlier cases keep running (and writing) until the process ends
+    static PAGE: std::sync::atomic::AtomicUsize = std::sync::atomic::AtomicUsize::new(0);
+    let html = dir.join(format!("statistics-{}.html", PAGE.fetch_add(1, std::sync::atomic::Ordering::SeqCst)));
+    let _ = std::fs::remove_file(&html);
+    let mut config = aquatic_udp::config::Config::default();
+    config.statistics.interval = 1;
+    config.statistics.write_html_to_file = true;
+    config.statistics.html_file_path = html.clone();
+    config.statistics.torrent_peer_histograms = true;
+    config.statistics.peer_clients = true;
+    let (tx, rx) = crossbeam_channel::unbounded();
+    let statistics = Statistics::new(&config);
+    let cfg2 = config.clone();
+    std::thread::spawn(move || { let _ = aquatic_udp::workers::statistics::run_statistics_worker(cfg2, State::default(), statistics, rx); });
+    let mut names: Vec<String> = Vec::new();
+    for m in msgs {
+        let id = crate::store::arr20(&crate::store::unhex(&m[1..]));
+        let n = format!("{}={}", &m[1..], format!("{}", aquatic_peer_id::PeerId(id).client()).replace(' ', "_"));
+        if !names.contains(&n) { names.push(n); }
+        let msg = if m.starts_with('+') { StatisticsMessage::PeerAdded(PeerId(id)) } else { StatisticsMessage::PeerRemoved(PeerId(id)) };
+        let _ = tx.send(msg);
+    }
+    std::thread::sleep(std::time::Duration::from_millis(2300));
+    let page = std::fs::read_to_string(&html).unwrap_or_default();
+    // rows of the "Peer clients" table
+    let mut rows: Vec<String> = Vec::new();
+    if let Some(i) = page.find("Peer clients") {
+        let t = &page[i..];
+        let cells: Vec<&str> = t.split("<td>").skip(1).map(|c| c.split("</td>").next().unwrap_or("").trim()).collect();
+        for pair in cells.chunks(2) {
+            if pair.len() == 2 { rows.push(format!("{}={}", pair[0].replace(' ', "_"), pair[1].replace(',', ""))); }
+        }
+    }
+    rows.sort();
+    writeln!(out, "statsw {} {} => {}", if msgs.is_empty() { "-".to_string() } else { msgs.join(";") }, if names.is_empty() { "-".to_string() } else { names.join(",") },
+        if page.is_empty() { "NOPAGE".to_string() } else if rows.is_empty() { "-".to_string() } else { rows.join(";") }).unwrap();
+    drop(tx);
+}
+
 pub fn run(out: &mut impl Write, seed: u64, cases: usize, maxops: usize, replay: &str) {
     let dir = scratch();
     let path = dir.join("export.txt");
@@ -113,6 +157,22 @@ pub fn run(out: &mut impl Write, seed: u64, cases: usize, maxops: usize, replay:
         let mut r = master.fork(case as u64);
         let ops = stats_history(&mut r, maxops);
         run_history(out, &ops, seed ^ case as u64, &path);
+        // the real statistics worker on the messages of every 25th history
+        if case % 25 == 3 {
+            let mut buf: Vec<u8> = Vec::new();
+            run_history(&mut buf, &ops, seed ^ case as u64, &path);
+            let text = String::from_utf8_lossy(&buf).to_string();
+            let mut msgs: Vec<String> = Vec::new();
+            for l in text.lines() {
+                let o = l.split("=>").nth(1).unwrap_or("");
+                for tok in o.split_whitespace() {
+                    for m in tok.split(';') {
+                        if (m.starts_with('+') || m.starts_with('-')) && m.len() == 41 { msgs.push(m.to_string()); }
+                    }
+                }
+            }
+            stats_worker_case(out, &msgs, &dir);
+        }
         // crash injection on every 10th history (a child process per probe point)
         if case % 10 == 9 {
             let kind = if (case / 10) % 2 == 0 { "plain" } else { "tmpext" };
